@@ -211,3 +211,28 @@ CLAIMED['C10'] = {
             'path resolution (C12), string syntax (C09), transformer semantics (C05), env/timeout (C11/C19). The refinement theorem is for cases whose definitions are already made.',
     'technique': CORR + ' (probe programs; recording ProcessExecutor)',
 }
+CLAIMED['C07'] = {
+    'text': 'proof (partial: the location of instruction-argument error reports is checked, not proved, when an instruction parser raises after consuming input; the '
+            'phase-order theorem assumes self-contained blocks, and its necessity is shown by a refuted variant): ParseSource line-number invariant over every operation '
+            'sequence; the document reader (default section, headers, comment/blank grouping, multi-line instructions as oracle extents, inclusion with the chain of including '
+            'files) = the declarative reading "elements by governing header, in file order"; phase order irrelevant; source locations exact (first line, consumed lines, '
+            'inclusion chain); include is a splice; unknown section / inclusion cycle is an error; the reader terminates. 14 theorems closed under the global context.',
+    'note': 'Hand-written model of parse_source.py and the document reader (document_parser._Impl/parse_file/_include_files/_add_raw_doc, element parsers, act parser, inclusion '
+            'directive parser) over real line texts; modelled, not verified. Instruction parsers, path resolution and file contents are explicit oracles (Section variables; tables '
+            'computed from the running code per case). ASCII only. Tie: ~8400 (quick) / ~92700 (thorough) cases incl. exhaustive small documents, inclusion graphs with '
+            'cycles/diamonds/missing files, block permutations executed end to end.',
+    'technique': 'Coq theorem over hand model (invariant over ParseSource operation sequences; refinement reader = declarative reading by induction on fuel/depth; block '
+                 'decomposition) + oracle tables + differential correspondence',
+}
+CLAIMED['C08'] = {
+    'text': 'proof (partial: "each reference evaluates to the defined value" is proved for [cleanup] only when every main step scheduled before it has run; without that proviso '
+            'it is refuted by a vm_compute witness replayed on the real program - open known finding KF-C08-1; all other clauses full): validation accepts iff no name is defined '
+            'twice (builtins included) and every reference has an earlier definition in execution order whose type satisfies the restriction, transitively; a violation is a '
+            'VALIDATION_ERROR before execution; file order of phases irrelevant; indirect checking terminates; resolution of strings/lists/paths; the type-compatibility matrix '
+            'regenerated from the live restriction objects matches the model. 11 theorems closed under the global context.',
+    'note': 'Hand-written model of symbol validation, restrictions (13 value types, three restriction forms), resolution and the execution-time table (coq/Model/Symbols.v); modelled, '
+            'not verified. Tie: ~3500 (quick) / 31000 (thorough) generated def/reference programs run through the real main program + regenerated type matrix (323 rows). Trusted '
+            'besides the kernel: the harness mapping from generated source to model terms, the modelled pathlib join, the assumption that non-def instructions resolve exactly the '
+            'references they report. Outside: message texts, pre-sds/post-setup validation steps, cd, --act.',
+    'technique': TAB,
+}
